@@ -27,7 +27,7 @@ RULE = ('fixed part (exhaustive): for each of the 3 families all 120 indices -> 
         '(c) fit linearity: two data sets (exact combinations or generic smooth+noise data) and random a,b; '
         '(d) ZernikeOPD on a random bundled lens.  Non-trivial: every exhaustive case; poly cases with N>=2; fit cases '
         'with N>=4; OPD cases with N>=4 and rms OPD > 1e-3 waves.  distinct = distinct case hash')
-TIERS = {'quick': dict(shards=12, cases=110), 'thorough': dict(shards=16, cases=1100)}
+TIERS = {'quick': dict(shards=12, cases=90), 'thorough': dict(shards=16, cases=1100)}
 MIN_NONTRIVIAL = {'quick': 800, 'thorough': 12000}
 MIN_EVALS = {
     'index-count': 3, 'index-rule': 360, 'index-wellformed': 360, 'index-polynomial': 720,
